@@ -43,8 +43,10 @@ type ReqWish struct {
 type DSWish struct {
 	Len    int
 	Cached bool
-	FHash  int
-	FData  int
+	// Damaged: the cache directory holds a truncated file under the executable's hash (never together with Cached)
+	Damaged bool
+	FHash   int
+	FData   int
 }
 
 type Scenario struct {
@@ -114,7 +116,7 @@ func ParseScenario(c tf.M) Scenario {
 	}
 	for _, d := range maps(c["ds"]) {
 		s.DS = append(s.DS, DSWish{
-			Len: tf.Int(d, "len", 1000), Cached: tf.Bool(d, "cached", true),
+			Len: tf.Int(d, "len", 1000), Cached: tf.Bool(d, "cached", true), Damaged: tf.Bool(d, "dmg", false) && !tf.Bool(d, "cached", true),
 			FHash: clampBudget(tf.Int(d, "fHash", 0), s.MaxTry), FData: clampBudget(tf.Int(d, "fData", 0), s.MaxTry),
 		})
 	}
@@ -203,7 +205,7 @@ func (s Scenario) ToM() tf.M {
 		reqs = append(reqs, tf.M{"want": r.Want, "shape": r.Shape, "raws": r.Raws, "fReq": r.FReq, "tx": r.Tx, "exec": ex})
 	}
 	for _, d := range s.DS {
-		ds = append(ds, tf.M{"len": d.Len, "cached": d.Cached, "fHash": d.FHash, "fData": d.FData})
+		ds = append(ds, tf.M{"len": d.Len, "cached": d.Cached, "dmg": d.Damaged, "fHash": d.FHash, "fData": d.FData})
 	}
 	m := tf.M{"maxTry": s.MaxTry, "reqs": reqs, "ds": ds}
 	if s.AppErr {
@@ -278,6 +280,7 @@ func (s *Scenario) CacheShort() {
 	for i := range s.DS {
 		if s.DS[i].Len < ShortBound {
 			s.DS[i].Cached = true
+			s.DS[i].Damaged = false
 		}
 	}
 }
@@ -304,7 +307,7 @@ func RandomScript(rng *rand.Rand, mode string) tf.Script {
 		if l < ShortBound && rng.Intn(100) < 85 {
 			cached = true // keep most scenarios away from the (known) crash of short fetched executables
 		}
-		s.DS = append(s.DS, DSWish{Len: l, Cached: cached, FHash: budget(5), FData: budget(12)})
+		s.DS = append(s.DS, DSWish{Len: l, Cached: cached, Damaged: !cached && l >= ShortBound && rng.Intn(4) == 0, FHash: budget(5), FData: budget(12)})
 	}
 	nreq := pick(rng, 1, 1, 2, 2, 2, 3)
 	txMode := rng.Intn(4) == 0
